@@ -128,7 +128,7 @@ func runC13(c *core.Ctx) {
 	for _, n := range c13Counts {
 		lists[n] = contiguous(n)
 	}
-	c.Cases("hash", c.N(16000, 160000), func(k *core.Case) {
+	c.Cases("hash", c.N(16000, 2000000), func(k *core.Case) {
 		r := k.R
 		var key []byte
 		class := ""
@@ -217,7 +217,7 @@ func runC13(c *core.Ctx) {
 
 	// arbitrary hash codes through a custom Hasher: the partitioner arithmetic must agree with the reference
 	// formulas for every 32-bit hash value, in particular around the sign boundary
-	c.Cases("hashcode", c.N(4000, 40000), func(k *core.Case) {
+	c.Cases("hashcode", c.N(4000, 800000), func(k *core.Case) {
 		r := k.R
 		boundary := []uint32{0, 1, 2, 0x7ffffffe, 0x7fffffff, 0x80000000, 0x80000001, 0x80000002, 0xfffffffe, 0xffffffff, 0x55555555, 0xaaaaaaaa}
 		var h uint32
@@ -266,7 +266,7 @@ func runC13(c *core.Ctx) {
 	})
 
 	// sequential laws
-	c.Cases("seq", c.N(2000, 12000), func(k *core.Case) {
+	c.Cases("seq", c.N(2000, 200000), func(k *core.Case) {
 		r := k.R
 		n := core.Pick(r, 1, 2, 3, 5, 8, 13, 64, 1000)
 		if r.Chance(1, 3) {
@@ -336,7 +336,7 @@ func runC13(c *core.Ctx) {
 	})
 
 	// concurrent histories -> porcupine
-	c.Cases("conc", c.N(2400, 16000), func(k *core.Case) {
+	c.Cases("conc", c.N(2400, 160000), func(k *core.Case) {
 		r := k.R
 		g := r.Range(2, 8)
 		per := r.Range(2, 8)
